@@ -53,12 +53,14 @@ def sensitivity(pid: str, repo: str, jobs: int = 16):
         return list(ex.map(_one, items))
 
 
-def neutral_run(pid: str, repo: str):
-    """the check must stay silent on a reformatted, locally-renamed (behaviour-preserving) copy of the sources"""
+def neutral_run(pid: str, repo: str, restyle: bool = False):
+    """the check must stay silent on a reformatted, locally-renamed (behaviour-preserving) copy of the sources; with
+    restyle=True comparisons are mirrored, if/else arms swapped under a negation, constants commuted and returns routed
+    through a temporary as well"""
     from . import neutral
     d = tempfile.mkdtemp(prefix="pstneu.")
     try:
-        neutral.make(repo, d)
+        neutral.make(repo, d, restyle=restyle)
         r = subprocess.run([sys.executable, "-m", "pst.check", pid, "--repo", d, "--dry"], cwd=VERIF, capture_output=True,
                            text=True, timeout=300)
         first = ""
@@ -66,7 +68,9 @@ def neutral_run(pid: str, repo: str):
             if " rule=" in ln or "ANALYSIS-ERROR" in ln:
                 first = ln.strip()[:200]
                 break
-        return dict(variant="ast.unparse round-trip + every local variable renamed", exit=r.returncode, first=first)
+        return dict(variant="ast.unparse round-trip + every local variable renamed" +
+                    (" + mirrored comparisons, swapped if/else arms, commuted constants, returns through a temporary" if restyle else ""),
+                    exit=r.returncode, first=first)
     finally:
         shutil.rmtree(d, ignore_errors=True)
 
@@ -152,9 +156,10 @@ if __name__ == "__main__":
         ok = r_["got"] == "refute" or not r_.get("primary", True)
         bad += not ok
         print("seeded  ", "ok " if ok else "BAD", r_)
-    n_ = neutral_run(pid_, repo_)
-    bad += n_["exit"] != 0
-    print("neutral ", "ok " if n_["exit"] == 0 else "BAD", n_)
+    for rs_ in (False, True):
+        n_ = neutral_run(pid_, repo_, restyle=rs_)
+        bad += n_["exit"] != 0
+        print("neutral ", "ok " if n_["exit"] == 0 else "BAD", n_)
     for r_ in refactor_runs(pid_, repo_):
         ok = r_["got"] in ("silent", "unmodelled", "patch-does-not-apply")
         bad += not ok
